@@ -492,10 +492,10 @@ impl<K, V, S> LruCache<K, V, S> {
     /// Creates an iterator that drains entries from this cache. Both key and
     /// value of each entry are returned. The cache is cleared afterward.
     ///
-    /// Note it is important for the drain to be dropped in order to ensure
-    /// integrity of the data structure. Preventing it from being dropped, e.g.
-    /// using [mem::forget](mem::forget), can result in unexpected behavior of
-    /// the cache.
+    /// The cache is emptied as soon as the drain is created. If the drain is
+    /// prevented from being dropped, e.g. using [mem::forget](mem::forget),
+    /// the entries it has not yielded yet and the capacity of the cache are
+    /// leaked, but the cache remains a valid, empty cache.
     ///
     /// # Example
     ///
